@@ -1,0 +1,66 @@
+//go:build verif
+
+package pipeline
+
+// Machine-checked contracts for the deductive checks in /verif (see
+// /verif/DESIGN.md). Comment-only unless stated otherwise; compiled solely
+// under the "verif" build tag.
+
+// ---- package-level sentinels are non-nil (established by init) ----
+
+//@ ginv matrix_errors: errNilMatrix != nil && errPermutationLengthMismatch != nil && errPermutationUnknownDimension != nil &&
+//@     errAdjustmentLengthMismatch != nil && errAdjustmentUnknownDimension != nil && errPermutationSkipped != nil && errPermutationNoMatch != nil
+
+// ---- C11: matrix permutation validation ----
+
+//@ define inSetup(m, p, d) := exists i int :: {m.Setup[d][i]} 0 <= i && i < len(m.Setup[d]) && m.Setup[d][i] == p[d]
+//@ define base(m, p) := forall d string :: {has(p,d)} has(p,d) ==> inSetup(m, p, d)
+//@ define adjwf(m, x) := x != nil && len(x.With) == len(m.Setup) &&
+//@     (forall d string :: {has(x.With,d)} has(x.With,d) ==> m.Setup[d] != nil)
+//@ define mt(x, p) := forall d string :: {has(p,d)} has(p,d) ==> x.With[d] == p[d]
+//@ define skips(x) := x.Skip != nil && (typeis(x.Skip, bool) ==> unbox(x.Skip, bool))
+//@ define accept(m, p) := (m == nil && len(p) == 0) ||
+//@     (m != nil && len(p) == len(m.Setup) &&
+//@      (forall d string :: {has(p,d)} has(p,d) ==> m.Setup[d] != nil) &&
+//@      (forall j int :: {m.Adjustments[j]} 0 <= j && j < len(m.Adjustments) ==>
+//@          adjwf(m, m.Adjustments[j]) && (mt(m.Adjustments[j], p) ==> !skips(m.Adjustments[j]))) &&
+//@      (base(m, p) || (exists j int :: {m.Adjustments[j]} 0 <= j && j < len(m.Adjustments) && mt(m.Adjustments[j], p))))
+
+//@ func (*MatrixAdjustment).ShouldSkip
+//@   requires ma != nil
+//@   pure
+//@   assigns nothing
+//@   ensures [skip] ret == skips(ma)
+
+//@ func (*Matrix).validatePermutation
+//@   assigns nothing
+//@   ensures [spec] ret == nil <==> old(accept(m, p))
+//@   loop 0
+//@     assigns nothing
+//@     invariant [dims] forall d string :: {visited(d)} visited(d) ==> has(p,d) && m.Setup[d] != nil
+//@   loop 1
+//@     assigns nothing
+//@     invariant [valid] valid && (forall d string :: {visited(d)} visited(d) ==> has(p,d) && inSetup(m, p, d))
+//@   loop 2
+//@     assigns nothing
+//@     invariant [nomatch] !match && 0 <= $idx && (forall i int :: {m.Setup[dim][i]} 0 <= i && i < $idx ==> m.Setup[dim][i] != val)
+//@     decreases len(m.Setup[dim]) - $idx
+//@   loop 3
+//@     assigns nothing
+//@     invariant [adjs] 0 <= $idx && $idx <= len(m.Adjustments) &&
+//@         (forall j int :: {m.Adjustments[j]} 0 <= j && j < $idx ==>
+//@             adjwf(m, m.Adjustments[j]) && (mt(m.Adjustments[j], p) ==> !skips(m.Adjustments[j])))
+//@     invariant [valid] valid <==> (base(m, p) || (exists j int :: {m.Adjustments[j]} 0 <= j && j < $idx && mt(m.Adjustments[j], p)))
+//@     decreases len(m.Adjustments) - $idx
+//@   loop 4
+//@     assigns nothing
+//@     invariant [dims] forall d string :: {visited(d)} visited(d) ==> has(adj.With,d) && m.Setup[d] != nil
+//@   loop 5
+//@     assigns nothing
+//@     invariant [match] match && (forall d string :: {visited(d)} visited(d) ==> has(p,d) && adj.With[d] == p[d])
+
+//@ func (*CommandStep).InterpolateMatrixPermutation
+//@   requires c != nil
+//@   assigns everything
+//@   ensures [reject] !old(accept(c.Matrix, mp)) ==> err != nil && unchanged()
+//@   ensures [accept] old(accept(c.Matrix, mp)) && old(len(mp)) == 0 ==> err == nil && unchanged()
